@@ -182,7 +182,16 @@ struct Live {
     had_watcher: bool,
 }
 
+/// Every file-system change the engine makes stays strictly inside a case directory below its own
+/// temporary base (paths are resolved lexically; the base contains no symlinks).
+fn confined(path: &Path) -> bool {
+    let b = lexical(&std::env::temp_dir().join(format!("amh-watch-{}", std::process::id())));
+    let p = lexical(path);
+    p.len() >= b.len() + 2 && p[..b.len()] == b[..] && !p.iter().any(|c| c == b"..")
+}
+
 fn mk(path: &Path, dir: bool) {
+    if !confined(path) { return; }
     if dir { let _ = std::fs::create_dir_all(path); } else {
         if let Some(p) = path.parent() { let _ = std::fs::create_dir_all(p); }
         if !path.is_dir() { let _ = std::fs::write(path, b"x"); }
@@ -190,6 +199,7 @@ fn mk(path: &Path, dir: bool) {
 }
 
 fn rm(path: &Path) {
+    if !confined(path) { return; }
     if path.is_dir() { let _ = std::fs::remove_dir_all(path); } else { let _ = std::fs::remove_file(path); }
 }
 
